@@ -8,6 +8,8 @@ import OdcGeo.Model.C20
 import OdcGeo.Lemmas.C20
 import OdcGeo.Lemmas.C20b
 import OdcGeo.Lemmas.C20c
+import OdcGeo.Lemmas.C20d
+import Mathlib.Algebra.Order.Field.Basic
 import OdcGeo.Props.C17
 
 namespace OdcGeo.C20
@@ -268,6 +270,89 @@ theorem snap_affine_idem {A B : Aff} {ttol stol tol : Rat} (h : snapAffine A tto
     · rfl
     · rw [snapScale_idem h1, snapScale_idem h2]
       simp only [bind, Except.bind, pure, Except.pure, maybeInt_idem]
+
+/-! ## `decompose_rws`, `resolution_from_affine`
+
+`n` and `p` are the two square roots taken by the Cholesky factorisation of `AᵀA`
+(`n² = a² + d²`, `p² = (b² + e²) − ((ab + de)/n)²`, both positive); the model follows the
+code step by step (Cholesky, inverse, determinant test with column / row flip, diagonal
+extraction). -/
+
+/-- **`decompose_rws`**: `R·W·S = A` (translation carried by `R`), `R` is a proper rotation
+(`RᵀR = I`, `det R = 1`), `W = [[1, w], [0, 1]]`, `S` is diagonal with `S₁₁ = n > 0` and
+`S₁₁·S₂₂ = det A`. -/
+theorem decompose_rws_spec (A : Aff) (n p : Rat) (hdet : A.det ≠ 0) (hn : 0 < n)
+    (hn2 : n * n = A.a * A.a + A.d * A.d) (hp : 0 < p)
+    (hp2 : p * p = (A.b * A.b + A.e * A.e) - ((A.b * A.a + A.e * A.d) / n) ^ 2) :
+    let r := decomposeRws A n p
+    r.R * r.W * r.S = A ∧
+    (r.R.a * r.R.a + r.R.d * r.R.d = 1 ∧ r.R.b * r.R.b + r.R.e * r.R.e = 1 ∧
+      r.R.a * r.R.b + r.R.d * r.R.e = 0 ∧ r.R.det = 1) ∧
+    (r.W.a = 1 ∧ r.W.d = 0 ∧ r.W.e = 1 ∧ r.W.c = 0 ∧ r.W.f = 0) ∧
+    (r.S.b = 0 ∧ r.S.d = 0 ∧ r.S.c = 0 ∧ r.S.f = 0 ∧ r.S.a = n ∧ r.S.e = A.det / n) := by
+  have hne : n ≠ 0 := ne_of_gt hn
+  have hnn : A.a * A.a + A.d * A.d = n * n := hn2.symm
+  intro r
+  have hr : r = ⟨⟨A.a / n, -A.d / n, A.c, A.d / n, A.a / n, A.f⟩,
+      ⟨1, (A.a * A.b + A.d * A.e) / A.det, 0, 0, 1, 0⟩, ⟨n, 0, 0, 0, A.det / n, 0⟩⟩ := by
+    simp only [r, decomposeRws, decomposeRws2_closed A n p hdet hn hn2 hp hp2, m2]
+  rw [hr]
+  obtain ⟨a, b, c, d, e, f⟩ := A
+  simp only [Aff.det] at hdet hnn ⊢
+  refine ⟨?_, ⟨?_, ?_, ?_, ?_⟩, by simp, by simp⟩
+  · have hdet' : a * e - d * b ≠ 0 := by rwa [mul_comm d b]
+    simp only [Aff.mul_def, Aff.mul]
+    ext <;> simp only [] <;> field_simp <;>
+      first
+        | ring1
+        | linear_combination (-b) * hnn
+        | linear_combination b * hnn
+        | linear_combination (-e) * hnn
+        | linear_combination e * hnn
+  · field_simp; linarith
+  · field_simp; linarith
+  · field_simp; ring
+  · field_simp; linarith
+
+/-- The same decomposition in closed form over **any ordered field** (so also over ℝ, where
+`n = √(a² + d²)` exists for every invertible `A`): with `R = [[a,−d],[d,a]]/n`,
+`W = [[1, (ab+de)/det], [0, 1]]`, `S = diag(n, det/n)` one has `R·W·S = A`, `RᵀR = I`, `det R = 1`. -/
+theorem decompose_rws_field {K : Type} [Field K] [LinearOrder K] [IsStrictOrderedRing K]
+    (a b d e n : K) (hdet : a * e - b * d ≠ 0) (hn : 0 < n) (hn2 : n * n = a * a + d * d) :
+    let w := (a * b + d * e) / (a * e - b * d)
+    let s2 := (a * e - b * d) / n
+    -- R·W·S, entry by entry
+    (a / n * n = a ∧ (a / n * w + -d / n) * s2 = b ∧ d / n * n = d ∧ (d / n * w + a / n) * s2 = e) ∧
+    -- RᵀR = I and det R = 1
+    (a / n * (a / n) + d / n * (d / n) = 1 ∧ a / n * (-d / n) + d / n * (a / n) = 0 ∧
+      a / n * (a / n) - -d / n * (d / n) = 1) := by
+  have hne : n ≠ 0 := ne_of_gt hn
+  have hdet' : a * e - d * b ≠ 0 := by rwa [mul_comm d b]
+  refine ⟨⟨by field_simp, ?_, by field_simp, ?_⟩, ?_, by ring, ?_⟩
+  · field_simp; linear_combination (-b) * hn2
+  · field_simp; linear_combination (-e) * hn2
+  · field_simp; linear_combination -hn2
+  · field_simp; linear_combination -hn2
+
+/-- **`resolution_from_affine`**: without rotation/shear (off-diagonal terms below `1e-10`) the
+resolution is the diagonal of `A` (signs kept); otherwise it is `(n, det A / n)`: the length of
+the first column and a second component that makes the product equal `det A`. -/
+theorem resolution_from_affine_spec (A : Aff) (n p : Rat) :
+    (isAffineSt A tol1em10 = true → resolutionFromAffine A n p = (A.a, A.e)) ∧
+    (isAffineSt A tol1em10 = false → A.det ≠ 0 → 0 < n → n * n = A.a * A.a + A.d * A.d → 0 < p →
+      p * p = (A.b * A.b + A.e * A.e) - ((A.b * A.a + A.e * A.d) / n) ^ 2 →
+      resolutionFromAffine A n p = (n, A.det / n)) := by
+  constructor
+  · intro h; unfold resolutionFromAffine; rw [if_pos h]
+  · intro h hdet hn hn2 hp hp2
+    unfold resolutionFromAffine
+    rw [if_neg (by rw [h]; simp)]
+    simp only [decomposeRws, decomposeRws2_closed A n p hdet hn hn2 hp hp2, m2]
+
+/-- Hypotheses of `decompose_rws_spec` are satisfiable: the 3-4-5 rotation with shear and scale. -/
+example : (decomposeRws ⟨3, -1, 7, 4, 7, 9⟩ 5 5).S = ⟨5, 0, 0, 0, 5, 0⟩ ∧
+    (decomposeRws ⟨3, -1, 7, 4, 7, 9⟩ 5 5).R = ⟨3 / 5, -4 / 5, 7, 4 / 5, 3 / 5, 9⟩ := by
+  constructor <;> decide +kernel
 
 /-! ## `affine_from_pts`, `Poly2d.fit`: least squares on exactly representable mappings -/
 
